@@ -30,6 +30,43 @@ OK = stmt(r"^_0 = Result::<\(\), anyhow::Error>::Ok\(", name="return Ok(())")
 FLD = lambda path: r"\(\(\(\*\{arg\(_1: &KyroDbConfig\)\}\)\." + path
 
 
+def env_comparisons(fn, tagged=False):
+    """Every decision of validate that compares the environment name with a string literal: [(switch block, provenance text,
+    'eq'|'ne', literal)].  The literal is read from the `&&str` promoted constant the comparison call receives."""
+    import vlib.mir as _M
+    from vlib import mirflow as MF
+    out = []
+    calls = {}
+    for idx, b in fn.blocks.items():
+        if b.cleanup or b.kind != "call" or not re.search(r"<(std::string::)?String as PartialEq<&str>>::(eq|ne)", b.term or ""):
+            continue
+        a = _M._split_top(b.args)
+        lit = None
+        m = re.match(r"^(?:move |copy )?(_\d+)$", a[1].strip()) if len(a) > 1 else None
+        if m:
+            for (_b, _i, rhs) in (fn.build_defs().get(m.group(1)) or []):
+                pm = re.search(r"::promoted\[(\d+)\]$", rhs)
+                if pm:
+                    lit = _M.PROMOTED_STR.get((fn.name, int(pm.group(1))))
+        calls[b.dest] = (idx, "ne" if "::ne(" in (b.term or "") else "eq", lit)
+    old = MF.SITE_TAGS
+    MF.SITE_TAGS = tagged
+    try:
+        for idx in sorted(fn.blocks):
+            b = fn.blocks[idx]
+            if b.cleanup or b.kind != "switch":
+                continue
+            o = MF.origin(fn, b.switch_local)
+            from vlib import mirdec as MD
+            if re.search(ENVCMP, MD._untag(o)):
+                loc = re.match(r"^(?:move |copy )?(_\d+)$", (b.switch_local or "").strip())
+                c = calls.get(loc.group(1)) if loc else None
+                out.append((idx, o, c[1] if c else None, c[2] if c else None))
+    finally:
+        MF.SITE_TAGS = old
+    return out
+
+
 def env_normalised(F):
     """Every comparison of the environment against a literal uses the trimmed, lower-cased string."""
     from vlib.mirflow import origin as _o
@@ -37,22 +74,15 @@ def env_normalised(F):
     fc = FnCheck(F, V)
     if fc.fn is None:
         return fc.missing()
-    cmps = []
-    for idx in sorted(fc.fn.blocks):
-        b = fc.fn.blocks[idx]
-        if b.cleanup or b.kind != "switch":
-            continue
-        o = _o(fc.fn, b.switch_local)
-        if _re.search(ENVCMP, o):
-            cmps.append((idx, o))
-    if len(cmps) != 3:
-        return Result("inconclusive", "expected 3 environment comparisons in validate, found %d" % len(cmps))
+    cmps = [(i, o) for (i, o, _k, _l) in env_comparisons(fc.fn)]
+    if not cmps:
+        return Result("inconclusive", "no comparison of the environment name in validate")
     bad = [(i, o) for i, o in cmps if "to_ascii_lowercase" not in o]
     r = fc.reachable(OK)
     if bad:
         return Result("violated", "environment compared without normalisation at bb%d: %s (a spelling such as 'PILOT' or ' pilot ' passes the name check but skips this branch)" % (bad[0][0], bad[0][1][:160]),
                       queries=r.queries, seconds=r.seconds, sample={"fn": fc.name, "kind": "PROVENANCE", "comparisons": [o[:120] for _i, o in cmps]})
-    return Result("holds", "3 comparisons, all on trim().to_ascii_lowercase()", queries=r.queries, seconds=r.seconds, sample={"fn": fc.name, "kind": "PROVENANCE", "comparisons": [o[:120] for _i, o in cmps]})
+    return Result("holds", "%d comparisons, all on trim().to_ascii_lowercase()" % len(cmps), queries=r.queries, seconds=r.seconds, sample={"fn": fc.name, "kind": "PROVENANCE", "comparisons": [o[:120] for _i, o in cmps]})
 
 
 def hosts_examined(F):
@@ -115,24 +145,16 @@ def validate_decision(F):
           "auth": field_index("config.rs", "AuthConfig", "enabled"), "rl": field_index("config.rs", "RateLimitConfig", "enabled"), "tls": field_index("config.rs", "TlsConfig", "enabled")}
     if None in vi.values() or None in fi.values():
         return [Result("inconclusive", "enum variants / struct fields of the configuration not found: %r %r" % (vi, fi))]
-    # the three environment comparisons, in block order, by their call-site tag
-    MF.SITE_TAGS = True
-    try:
-        envs = []
-        for idx in sorted(fn.blocks):
-            b = fn.blocks[idx]
-            if b.cleanup or b.kind != "switch":
-                continue
-            o = MF.origin(fn, b.switch_local)
-            if re.search(ENVCMP, MD._untag(o)):
-                envs.append(o)
-    finally:
-        MF.SITE_TAGS = False
-    if len(envs) != 3:
-        return [Result("inconclusive", "expected 3 environment comparisons in validate, found %d" % len(envs))]
-    kinds = ["ne" if "::ne(" in e else "eq" for e in envs]
+    # every environment comparison, keyed by its call-site tag, with the literal it compares against
+    envs = env_comparisons(fn, tagged=True)
+    if not envs or any(k is None or l is None for (_i, _o, k, l) in envs):
+        return [Result("inconclusive", "environment comparisons of validate not resolved to literals: %s" % [(i_, k, l) for (i_, _o, k, l) in envs])]
+    unknown = sorted(set(l for (_i, _o, _k, l) in envs) - {"benchmark", "pilot", "production"})
+    if unknown:
+        return [Result("inconclusive", "validate compares the environment with %s, which the property does not name" % unknown)]
     CFG = r"\(\(\(\*\{arg\(_1: &KyroDbConfig\)\}\)\.\d+: config::"
-    atoms = [("env_bench", ENVCMP, re.escape(envs[0])), ("env_pilot", ENVCMP, re.escape(envs[1])), ("env_prod", ENVCMP, re.escape(envs[2])),
+    env_atoms = [("env%d" % n, ENVCMP, re.escape(o)) for n, (_i, o, _k, _l) in enumerate(envs)]
+    atoms = env_atoms + [
              ("strategy", r"^discr:" + CFG + r"CacheConfig\)\.\d+: config::CacheStrategy\)$"), ("fsync", r"^discr:" + CFG + r"PersistenceConfig\)\.\d+: config::FsyncPolicy\)$"),
              ("recovery", r"^discr:" + CFG + r"PersistenceConfig\)\.\d+: config::RecoveryMode\)$"),
              ("interval", "^" + CFG + r"PersistenceConfig\)\.%d: u64\)$" % fi["interval"]), ("fresh", "^" + CFG + r"PersistenceConfig\)\.%d: bool\)$" % fi["fresh"]),
@@ -141,14 +163,18 @@ def validate_decision(F):
              ("obs_protected", r"^call <ObservabilityAuthMode as PartialEq>::ne$", None, "pure"),
              ("lo_grpc", r"^call (config::)?is_loopback_host\(deref\(&\(\(\(\*\{arg\(_1: &KyroDbConfig\)\}\)\.\d+: config::ServerConfig\)\.\d+: String\)\)\)$", None, "pure"),
              ("lo_http", r"^call (config::)?is_loopback_host\(call Option::<&str>::unwrap_or\)$", None, "pure")]
-    bench = "(not env_bench)" if kinds[0] == "ne" else "env_bench"
-    pilot = "env_pilot" if kinds[1] == "eq" else "(not env_pilot)"
-    prod = "env_prod" if kinds[2] == "eq" else "(not env_prod)"
+    # one truth value per literal: comparison n says `is_<literal>` (eq) or its negation (ne); all comparisons are taken on the
+    # same normalised string (O18.3/normalised), so comparisons with the same literal agree
+    lits = {"benchmark": "is_bench", "pilot": "is_pilot", "production": "is_prod"}
+    link = " ".join("(= env%d %s)" % (n, lits[l] if k == "eq" else "(not %s)" % lits[l]) for n, (_i, _o, k, l) in enumerate(envs))
+    link += " (not (and is_bench is_pilot)) (not (and is_bench is_prod)) (not (and is_pilot is_prod))"  # one name cannot equal two literals
+    bench, pilot, prod = "is_bench", "is_pilot", "is_prod"
     safe = ("(and (or %s (and (= strategy %d) (distinct fsync %d) (distinct interval 0) (distinct recovery %d))) "
             "(=> %s (and auth rl obs_protected (not fresh) (or tls lo_grpc))) "
             "(=> %s (and (or lo_grpc auth) (or lo_http obs_protected))))") % (bench, vi["learned"], vi["fs_none"], vi["best_effort"], pilot, prod)
-    return MD.decides(F, V, "entry", {"ok": OK}, atoms, {"ok": ("=>", safe)},
-                      declare=("env_bench", "env_pilot", "env_prod", "fresh", "auth", "rl", "tls", "obs_protected", "lo_grpc", "lo_http"),
+    atoms += [("is_bench", r"(?!)"), ("is_pilot", r"(?!)"), ("is_prod", r"(?!)")]  # spec-level names, tied to the comparisons by `assume`
+    return MD.decides(F, V, "entry", {"ok": OK}, atoms, {"ok": ("=>", safe)}, assume="(and %s)" % link,
+                      declare=tuple(a[0] for a in env_atoms) + ("is_bench", "is_pilot", "is_prod", "fresh", "auth", "rl", "tls", "obs_protected", "lo_grpc", "lo_http"),
                       what="KyroDbConfig::validate returns Ok only for configurations the property allows")
 
 
